@@ -320,3 +320,74 @@ def block_records(repo):
                                 'ref_dom': a in rdom.get(b, ()), 'supp_dom': a_out in sdom.get(b_in, ()),
                                 'line': method_line(repo, cls)})
     return out
+
+
+# ---------------------------------------------------------------------------
+# lookup order: a later statement of a block must be consulted before an earlier one
+# ---------------------------------------------------------------------------
+
+def shadow_records(repo):
+    """For two leaves a < b of one block that are visited in different regions Ra != Rb, and a reader block E that the
+    reference CFG reaches from that block (so every path from a to E runs through b): a lookup from E's region walks the
+    parent edges and takes the first region owning the identifier, so every walk that arrives at Ra must have passed Rb (or the
+    region of a later leaf) - otherwise a binding made by `a` hides the rebinding made by `b`.
+    -> {(cls, block, reader): {'bad': [(variant, a, b, walk)], 'n': checked, 'line': ...}}"""
+    recs = {}
+    for cls, summs in summaries(repo).items():
+        if cls in DOMAIN_EXCLUDED:
+            continue
+        for s in summs:
+            ref = pyref.block_cfg(s.root)
+            if ref is None:
+                continue
+            blocks, preds = ref
+            bp = base_path(s)
+            if bp is None or bp.raised is not None:
+                continue
+            ref_nodes = {'pre': 1, 'after': 1}
+            ref_nodes.update({k: 1 for k in blocks})
+            rmay, _rdom = reach_relations(ref_nodes, preds, False)
+            vis = {}
+            for path, reg, _ in bp.visits:
+                vis.setdefault(path, reg)
+
+            def up(r):
+                info = bp.regions.get(r)
+                return (list(info['parents']) + list(info['loops'])) if info else []
+            for bname, leaves in blocks.items():
+                regs = [(lf.path, vis.get(lf.path)) for lf in leaves]
+                regs = [(p, r) for p, r in regs if r is not None]
+                if len(regs) < 2:
+                    continue
+                for ename in list(blocks) + ['after']:
+                    if ename == bname or ename not in rmay.get(bname, ()):
+                        continue
+                    if ename == 'after':
+                        re_ = bp.final_flow
+                    else:
+                        el = [vis.get(lf.path) for lf in blocks[ename] if vis.get(lf.path) is not None]
+                        if not el:
+                            continue
+                        re_ = el[0]
+                    key = (cls, gen(bname), gen(ename))
+                    rec = recs.setdefault(key, {'bad': [], 'n': 0, 'line': method_line(repo, cls)})
+                    for i, (pa, ra) in enumerate(regs):
+                        later = {r for _, r in regs[i + 1:]} - {ra}
+                        if not later:
+                            continue
+                        rec['n'] += 1
+                        # walk from the reader without entering the regions of later leaves
+                        seen, work, walk = set(), [(re_, (re_,))], None
+                        while work:
+                            r, trail = work.pop()
+                            if r in seen or r in later:
+                                continue
+                            seen.add(r)
+                            if r == ra:
+                                walk = trail
+                                break
+                            for p in up(r):
+                                work.append((p, trail + (p,)))
+                        if walk is not None and re_ != ra:
+                            rec['bad'].append((s.variant, gen(pa), sorted(later), ' -> '.join(walk)))
+    return recs
